@@ -39,6 +39,12 @@ def random_config(rng, flavour="mixed"):
     # (sometimes endowments so small that positions and cash go negative: short sales and debts are ordinary fills)
     cfg["N"] = {"class": "ScriptAgent", "numAgents": rng.randint(1, 5), "markets": list(all_markets),
                 "assetVolume": rng.choice([50, 50, 50, 1, 0]), "cashAmount": rng.choice([10000, 10000, 64]), "script": script}
+    if rng.random() < 0.3:
+        # the endowment comes through a two-level `extends` chain: the middle entry overrides the base, the leaf defines neither
+        leaf = cfg["N"]
+        cfg["NB0"] = {"cashAmount": 512, "assetVolume": 7}
+        cfg["NB1"] = {"extends": "NB0", "cashAmount": leaf.pop("cashAmount"), "assetVolume": leaf.pop("assetVolume")}
+        leaf["extends"] = "NB1"
     hscript = dict(script)
     hscript["pEmpty"] = rng.choice([0.0, 0.5])
     cfg["H"] = {"class": "ScriptHFT", "numAgents": rng.randint(1, 3), "markets": list(all_markets),
@@ -104,6 +110,31 @@ def abort_phase(tb):
     return "other"
 
 
+def configured_endowment(cfg, sim, rec):
+    """What every agent starts with AS CONFIGURED: its group's cashAmount / assetVolume (constants in the harness's
+    configurations), each key taken from the entry itself or else from its NEAREST ancestor along `extends` - resolved here,
+    not by the code under test.  -> [[cash units, shares per market ...] per agent], or [] when a value is not a constant."""
+    def lookup(name, key, seen=()):
+        e = cfg[name]
+        if key in e:
+            return e[key]
+        if "extends" in e and e["extends"] not in seen:
+            return lookup(e["extends"], key, seen + (name,))
+        return None
+    out = []
+    for group in cfg["simulation"]["agents"]:
+        cash, vol, mk = lookup(group, "cashAmount"), lookup(group, "assetVolume"), lookup(group, "markets")
+        n = lookup(group, "numAgents")
+        if not all(isinstance(x, (int, float)) for x in (cash, vol)) or not isinstance(n, int) or not isinstance(mk, list):
+            return []
+        acc = set()
+        for nm in mk:
+            acc |= {m.market_id for m in sim.markets_group_name2market.get(nm, [])} | ({sim.name2market[nm].market_id} if nm in sim.name2market else set())
+        for _ in range(n):
+            out.append([rec.cash_units(float(cash))] + [int(vol) if m.market_id in acc else 0 for m in sim.markets])
+    return out if len(out) == len(sim.agents) else []
+
+
 def declared_hooks(cfg):
     """The hooks the probe events of a configuration DECLARE (what C13 calls registered), derived from the configuration
     alone: event ids count the entries of the sessions' event lists in order; one record per declared hook
@@ -166,7 +197,7 @@ def execute(cfg, seed, exact=True, forced_draws=None, scripts=None, extra_classe
             runner._setup()
             sim = runner.simulator
             hooks, bump = declared_hooks(cfg)
-            rec.emit("init", hold=rec.holdings(), hooks=hooks, bump=bump,
+            rec.emit("init", hold=rec.holdings(), endow=configured_endowment(cfg, sim, rec), hooks=hooks, bump=bump,
                      cs=[int(round(rec.U(m.market_id).unit / probes.CASH_UNIT)) if exact else 0 for m in sim.markets],
                      acc=[[bool(a.is_market_accessible(m.market_id)) for m in sim.markets] for a in sim.agents],
                      hft=[isinstance(a, probes.HighFrequencyAgent) for a in sim.agents],
